@@ -1095,8 +1095,11 @@ where
                     hs_noncmplt = Some(c);
                 }
             }
+            // A maximum is only final once every production of the rule has been fully costed (the
+            // cost of an incomplete production is a lower bound that can still grow), or once it is
+            // known to be infinite.
             if let Some(high_cmplt) = hs_cmplt
-                && (hs_noncmplt.is_none() || hs_cmplt > hs_noncmplt)
+                && (hs_noncmplt.is_none() || high_cmplt == u16::MAX)
             {
                 debug_assert!(high_cmplt >= costs[i]);
                 costs[i] = high_cmplt;
